@@ -3,10 +3,11 @@
 # Expects <worktree>/_mutant/{patch.diff,demo/run.sh}. Prints a one-line verdict per step.
 wt="$1"; m="$wt/_mutant"
 cd "$wt" || exit 2
-git checkout -q -- . 2>/dev/null
+clean() { git checkout -q -- . 2>/dev/null; git clean -fdq -e _mutant -e target -e 'target*' 2>/dev/null; }
+clean
 git apply "$m/patch.diff" || { echo "CONFIRM patch does not apply"; exit 2; }
 if cargo test --workspace --offline >"$m/confirm_tests.log" 2>&1; then echo "CONFIRM baseline-tests-with-change: pass"; else echo "CONFIRM baseline-tests-with-change: FAIL"; fi
 if bash "$m/demo/run.sh" >"$m/confirm_demo_with.log" 2>&1; then echo "CONFIRM demo-with-change: pass (unexpected)"; else echo "CONFIRM demo-with-change: fails (expected)"; fi
-git checkout -q -- . 
+clean
 if bash "$m/demo/run.sh" >"$m/confirm_demo_without.log" 2>&1; then echo "CONFIRM demo-without-change: pass (expected)"; else echo "CONFIRM demo-without-change: FAILS (unexpected)"; fi
 git apply "$m/patch.diff"
